@@ -41,19 +41,29 @@ func (fp *filesystemCachePersistor) getFilename(key string) string {
 	return filepath.Join(fp.root, filename)
 }
 
+// Store writes the value to a temp file and publishes it with a rename, so a
+// concurrent Get sees either the previous complete value or the new one, never
+// a file that is still being written.
 func (fp *filesystemCachePersistor) Store(key string, reader io.Reader) (int64, error) {
 	filename := fp.getFilename(key)
-	var written int64
-	{
-		f, err := os.OpenFile(filename, os.O_CREATE|os.O_TRUNC|os.O_WRONLY, 0o600)
-		if err != nil {
-			return 0, err
-		}
-		defer f.Close()
-		written, err = io.Copy(f, reader)
-		if err != nil {
-			return written, err
-		}
+	f, err := os.CreateTemp(fp.root, filepath.Base(filename)+".*.tmp")
+	if err != nil {
+		return 0, err
+	}
+	tempName := f.Name()
+	written, err := io.Copy(f, reader)
+	if err != nil {
+		_ = f.Close()
+		_ = os.Remove(tempName)
+		return written, err
+	}
+	if err = f.Close(); err != nil {
+		_ = os.Remove(tempName)
+		return written, err
+	}
+	if err = os.Rename(tempName, filename); err != nil {
+		_ = os.Remove(tempName)
+		return written, err
 	}
 	return written, nil
 }
@@ -85,8 +95,9 @@ func (fp *filesystemCachePersistor) Remove(key string) error {
 }
 
 func (fp *filesystemCachePersistor) RemoveAll() error {
-	glob := filepath.Join(fp.root, "*.cache")
-	files, _ := filepath.Glob(glob)
+	files, _ := filepath.Glob(filepath.Join(fp.root, "*.cache"))
+	tempFiles, _ := filepath.Glob(filepath.Join(fp.root, "*.cache.*.tmp"))
+	files = append(files, tempFiles...)
 	for _, file := range files {
 		err := os.Remove(file)
 		if err != nil {
